@@ -24,6 +24,7 @@ class TaskScenario(ScenarioData):
         self.doneLength: int = 0
         self.doneEffort: float = 0.0
         self.slotStartOffset: float = 0.0
+        self.latestEnd: Any = None
         self._selectedResources: Optional[list[Any]] = None
         self._lastBookedResource: Optional[Any] = None
         self._lastBookedSlot: Optional[int] = None
@@ -94,6 +95,8 @@ class TaskScenario(ScenarioData):
         # Track exact start time within a slot (for mid-slot dependency starts)
         # This is the number of seconds into the slot where we should start booking
         self.slotStartOffset = 0.0
+        # Latest end of a backward-scheduled task (deadline, successors or project end)
+        self.latestEnd = None
 
         # Reset the counters of all limits of this task (not parent tasks).
         # This is critical - limits track usage per period and must be reset
@@ -620,6 +623,9 @@ class TaskScenario(ScenarioData):
                     end_date = latest_end
 
                 if end_date:
+                    # A milestone happens at the bound itself, not at the start of the
+                    # last working slot before it
+                    self.latestEnd = min(end_date, self.project["end"])
                     # For ALAP, start from the last working slot BEFORE the end date
                     # (a deadline beyond the horizon is met by finishing inside the horizon)
                     self.currentSlotIdx = (
@@ -776,8 +782,10 @@ class TaskScenario(ScenarioData):
                 if end_date:
                     self.property[("start", self.scenarioIdx)] = end_date
                 else:
-                    slot_idx = self.currentSlotIdx if self.currentSlotIdx is not None else 0
-                    date = self.project.idxToDate(slot_idx)
+                    date = self.latestEnd
+                    if date is None:
+                        slot_idx = self.currentSlotIdx if self.currentSlotIdx is not None else 0
+                        date = self.project.idxToDate(slot_idx)
                     self.property[("start", self.scenarioIdx)] = date
                     self.property[("end", self.scenarioIdx)] = date
             return False
